@@ -29,7 +29,7 @@ def diag_h(scale: Sequence[Any], offset: Sequence[Any]) -> STensor:
 
 
 class Env:
-    def __init__(self, ctx: Ctx, D: int, size: Sequence[Any], ac: bool, symbolic_size: bool = False):
+    def __init__(self, ctx: Ctx, D: int, size: Sequence[Any], ac: bool, symbolic_size: bool = False, fractional: bool = False):
         reset_relations()
         self.ctx = ctx
         self.D = D
@@ -54,8 +54,17 @@ class Env:
         self.size = list(size)
         self.R = rotation(D)
         self.ac = ac
-        self.g = self.it.new(self.Grid, size=size_arg, spacing=STensor.from_flat(self.s, [D]),
+        if fractional:
+            # chains: the base grid is itself derived — downsample() of the odd size 2n-1 keeps the internal float size n - 1/2
+            g0 = self.it.new(self.Grid, size=tuple(2 * n - 1 for n in size), spacing=STensor.from_flat(self.s, [D]),
                              center=STensor.from_flat(self.c, [D]), direction=self.R, align_corners=ac)
+            self.g = self.it.method(g0, "downsample")
+            if [int(x) for x in self.it.method(self.g, "size")] != list(size) or \
+                    all(to_rat(x).equals(to_rat(y)) for x, y in zip(self.g.attrs["_size"].flat(), size)):
+                raise AnalysisError("fractional-size scenario: downsample() of odd sizes no longer keeps a non-integral internal size")
+        else:
+            self.g = self.it.new(self.Grid, size=size_arg, spacing=STensor.from_flat(self.s, [D]),
+                                 center=STensor.from_flat(self.c, [D]), direction=self.R, align_corners=ac)
         self.GW = self.gw(self.g)
 
     def gw(self, g: Obj) -> STensor:
@@ -118,12 +127,19 @@ def _crop_family(ctx: Ctx, F) -> None:
             3: [(1, 2, 0, 1, 2, 0), (0, 1), (-1, 0, 2, 1, 0, -2), 2]}
     margins = {2: [(1, 2), (0, 1), 2], 3: [(1, 0, 2), 1]}
     for D, sizes in ((2, cases2), (3, cases3)):
-        for size in sizes + ["sym"]:
+        for size0 in sizes + ["sym", "chain"]:
             for ac in (True, False):
-                env = Env(ctx, D, size if size != "sym" else [0] * D, ac, symbolic_size=(size == "sym"))
+                size = size0
+                if size0 == "chain":
+                    # operation chains: the family applied to a grid that is itself the result of downsample() (fractional internal size)
+                    size = (8, 9, 7)[:D]
+                    env = Env(ctx, D, size, ac, fractional=True)
+                    tag = f"D={D},size={size} after downsample,align_corners={ac}"
+                else:
+                    env = Env(ctx, D, size if size != "sym" else [0] * D, ac, symbolic_size=(size == "sym"))
+                    tag = f"D={D},size={size},align_corners={ac}"
                 it, g = env.it, env.g
                 sz = env.size
-                tag = f"D={D},size={size},align_corners={ac}"
                 for op, sign in (("crop", 1), ("pad", -1)):
                     for num in nums[D]:
                         tup = (num,) * (2 * D) if isinstance(num, int) else num
